@@ -611,15 +611,15 @@ Qed.
 Definition is_enum (t : nty) : bool := match t with NEnum _ _ => true | _ => false end.
 
 (* what one dataclass field contributes to asdict's (name, value) list *)
-Definition pairs_of (a : string * (bool * jtree)) : list (string * pyj) :=
+Definition pairs_of (a : string * (bool * pyj)) : list (string * pyj) :=
   if fst (snd a)
-  then [(fst a, pyj_of (snd (snd a))); (proxy_prefix ++ fst a, pyj_of (snd (snd a)))]
-  else [(fst a, pyj_of (snd (snd a)))].
+  then [(fst a, snd (snd a)); (proxy_prefix ++ fst a, snd (snd a))]
+  else [(fst a, snd (snd a))].
 
-Lemma filter_pairs : forall (l : list (string * (bool * jtree))),
+Lemma filter_pairs : forall (l : list (string * (bool * pyj))),
   Forall (fun a => String.prefix documented_proxy_prefix (fst a) = false) l ->
   filter (fun kv => negb (String.prefix dict_drop_prefix (fst kv))) (List.concat (map pairs_of l)) =
-  map (fun a => (fst a, pyj_of (snd (snd a)))) l.
+  map (fun a => (fst a, snd (snd a))) l.
 Proof.
   intros l H. induction H as [|a r Ha Hr IH]; [reflexivity|].
   cbn [map List.concat]. rewrite filter_app, IH. rewrite drop_prefix_documented.
@@ -628,41 +628,39 @@ Proof.
   - rewrite Ha. reflexivity.
 Qed.
 
+(* to_dict() holds the value tree (byte arrays as bytearray objects) *)
 Theorem asdict_correct : forall t,
-  no_byte_array t = true -> no_proxy_names t = true -> names_distinct t = true ->
+  no_proxy_names t = true -> names_distinct t = true ->
   forall v, has_ty (erase t) v = true ->
-  py_asdict t v = POk (pyj_of (expected t v)).
+  py_asdict t v = POk (dict_spec t v).
 Proof.
-  induction t as [| |n|n|n ms|u IH|x cap e IH|x fs IH] using nty_ind'; intros Hb Hp Hd v Hv;
+  induction t as [| |n|n|n ms|u IH|x cap e IH|x fs IH] using nty_ind'; intros Hp Hd v Hv;
     try reflexivity.
-  - (* alias *) cbn [py_asdict expected]. apply IH; auto.
+  - (* alias *) cbn [py_asdict dict_spec]. apply IH; auto.
   - (* array *)
-    cbn [no_byte_array] in Hb. apply andb_prop in Hb. destruct Hb as [Hb1 Hb2].
-    apply negb_true_iff in Hb1.
     destruct (has_ty_arr _ _ _ _ Hv) as [l [-> [_ Hall]]].
-    cbn [py_asdict expected vlist pyj_of]. rewrite Hb1.
-    rewrite (map_ext_in _ (fun a => POk (pyj_of (expected e a)))).
+    cbn [py_asdict dict_spec vlist]. destruct (is_byte e); [reflexivity|].
+    rewrite (map_ext_in _ (fun a => POk (dict_spec e a))).
     2:{ intros a Hin. apply IH; auto. exact (proj1 (Forall_forall _ _) Hall a Hin). }
-    rewrite <- (map_map (fun a => pyj_of (expected e a)) POk), seq_res_ok, map_map. reflexivity.
+    rewrite <- (map_map (dict_spec e) POk), seq_res_ok. reflexivity.
   - (* message *)
     destruct (has_ty_msg _ _ _ Hv) as [vs [-> Hall]].
-    cbn [no_byte_array no_proxy_names names_distinct] in Hb, Hp, Hd.
+    cbn [no_proxy_names names_distinct] in Hp, Hd.
     apply andb_prop in Hd. destruct Hd as [Hd1 Hd2].
-    cbn [py_asdict expected].
+    cbn [py_asdict dict_spec].
     set (V := VM vs) in *.
-    set (a := fun f : Z * (string * nty) => (fname f, (is_enum (ftype f), expected (ftype f) (vfield (fnum f) V)))).
+    set (a := fun f : Z * (string * nty) => (fname f, (is_enum (ftype f), dict_spec (ftype f) (vfield (fnum f) V)))).
     rewrite (map_ext_in _ (fun f => (fnum f, POk (pairs_of (a f))))).
     2:{ intros f Hin. f_equal.
         pose proof (proj1 (Forall_forall _ _) Hall f Hin) as Hf. cbv beta in Hf.
-        pose proof (proj1 (forallb_forall _ _) Hb f Hin) as Hbf. cbv beta in Hbf.
         pose proof (proj1 (forallb_forall _ _) Hp f Hin) as Hpf. cbv beta in Hpf.
         apply andb_prop in Hpf. destruct Hpf as [_ Hpf].
         pose proof (proj1 (forallb_forall _ _) Hd2 f Hin) as Hdf. cbv beta in Hdf.
-        pose proof (proj1 (Forall_forall _ _) IH f Hin Hbf Hpf Hdf _ Hf) as E.
+        pose proof (proj1 (Forall_forall _ _) IH f Hin Hpf Hdf _ Hf) as E.
         unfold a, pairs_of, field_pairs. cbn [fst snd]. rewrite E.
         destruct (ftype f) as [| |n|n|n ms|u|x' c' e'|x' fs'] eqn:Et; cbn [is_enum]; try reflexivity.
         cbn [erase has_ty] in Hf. destruct (vfield (fnum f) V) as [|z| |]; try discriminate Hf.
-        cbn [zof]. unfold is_member. rewrite Hf. reflexivity. }
+        cbn [zof dict_spec]. unfold is_member. rewrite Hf. reflexivity. }
     rewrite (sorted_payload _ _ _ fnum a (fun x => POk (pairs_of x))).
     rewrite <- (map_map pairs_of POk), seq_res_ok.
     set (AS := map snd (sort_fields (map (fun f => (fnum f, a f)) fs))).
@@ -674,23 +672,56 @@ Proof.
       apply andb_prop in Hpf. destruct Hpf as [Hpf _]. now apply negb_true_iff in Hpf. }
     rewrite (filter_pairs AS HAS).
     rewrite dict_of_pairs_nodup.
-    + f_equal. cbn [pyj_of]. f_equal.
+    + f_equal. f_equal.
       rewrite (sorted_payload _ _ _ fnum a (fun x => (fst x, snd (snd x)))).
-      fold AS. rewrite map_map. reflexivity.
+      fold AS. reflexivity.
     + rewrite map_map. cbn [fst].
       rewrite <- (map_map snd fst) in Hd1.
       change (map (fun f => (fnum f, (fname f, tt))) fs)
-        with (map (fun f => (fnum f, (fun x : string * (bool * jtree) => (fst x, tt)) (a f))) fs) in Hd1.
+        with (map (fun f => (fnum f, (fun x : string * (bool * pyj) => (fst x, tt)) (a f))) fs) in Hd1.
       rewrite (sorted_payload _ _ _ fnum a (fun x => (fst x, tt))) in Hd1. fold AS in Hd1.
       rewrite map_map in Hd1. cbn [fst] in Hd1. exact Hd1.
 Qed.
 
+(* json.dumps with the byte-array hook writes the specified value, for EVERY tree and value
+   (this is where fix b3480f8 enters: GenJson.dumps_bytes_as_list = true) *)
+Lemma dumps_hook : dumps_bytes_as_list = true.
+Proof. reflexivity. Qed.
+
+Theorem dumps_dict_spec : forall t v, py_dumps (dict_spec t v) = POk (expected t v).
+Proof.
+  induction t as [| |n|n|n ms|u IH|x cap e IH|x fs IH] using nty_ind'; intros v; try reflexivity.
+  - apply IH.
+  - cbn [dict_spec expected]. destruct e; cbn [is_byte];
+      try (cbn [py_dumps]; rewrite map_map, (map_ext _ (fun a => POk (expected _ a))) by (intros; apply IH);
+           rewrite <- (map_map (expected _) POk), seq_res_ok; reflexivity).
+    cbn [py_dumps]. rewrite dumps_hook, !map_map. reflexivity.
+  - cbn [dict_spec expected py_dumps].
+    set (a := fun f : Z * (string * nty) => (fname f, (ftype f, vfield (fnum f) v))).
+    change (map (fun f => (fnum f, (fname f, dict_spec (ftype f) (vfield (fnum f) v)))) fs)
+      with (map (fun f => (fnum f, (fun x : string * (nty * val) => (fst x, dict_spec (fst (snd x)) (snd (snd x)))) (a f))) fs).
+    change (map (fun f => (fnum f, (fname f, expected (ftype f) (vfield (fnum f) v)))) fs)
+      with (map (fun f => (fnum f, (fun x : string * (nty * val) => (fst x, expected (fst (snd x)) (snd (snd x)))) (a f))) fs).
+    rewrite !(sorted_payload _ _ _ fnum a).
+    set (AS := map snd (sort_fields (map (fun f => (fnum f, a f)) fs))).
+    rewrite map_map. cbn [fst snd].
+    rewrite (map_ext_in _ (fun x => POk (fst x, expected (fst (snd x)) (snd (snd x))))).
+    2:{ intros y Hy. unfold AS in Hy. apply in_map_iff in Hy. destruct Hy as [[k y'] [<- Hy]].
+        apply sort_fields_in in Hy. apply in_map_iff in Hy. destruct Hy as [f [E Hin]].
+        injection E as _ <-. unfold a. cbn [fst snd].
+        now rewrite (proj1 (Forall_forall _ _) IH f Hin). }
+    rewrite <- (map_map (fun x : string * (nty * val) => (fst x, expected (fst (snd x)) (snd (snd x)))) POk), seq_res_ok.
+    unfold AS.
+    rewrite <- (sorted_payload _ _ _ fnum a (fun x => (fst x, expected (fst (snd x)) (snd (snd x))))).
+    reflexivity.
+Qed.
+
 Theorem py_tree_correct : forall t v,
-  no_byte_array t = true -> no_proxy_names t = true -> names_distinct t = true ->
+  no_proxy_names t = true -> names_distinct t = true ->
   has_ty (erase t) v = true ->
   py_tree t v = POk (expected t v).
 Proof.
-  intros t v Hb Hp Hd Hv. unfold py_tree. rewrite asdict_correct by auto. apply dumps_pyj_of.
+  intros t v Hp Hd Hv. unfold py_tree. rewrite asdict_correct by auto. apply dumps_dict_spec.
 Qed.
 
 (* both languages print the same value: the C text is the compact print of the tree that
@@ -698,34 +729,34 @@ Qed.
 Theorem c_eq_py : forall t v,
   shape_ok t = true -> wf (erase t) = true -> has_ty (erase t) v = true ->
   (exists x fs, t = NMsg x fs) ->
-  no_byte_array t = true -> no_proxy_names t = true -> names_distinct t = true ->
+  no_proxy_names t = true -> names_distinct t = true ->
   exists s, py_to_json "," ":" t v = POk s /\ c_text t (store t v) = Some s.
 Proof.
-  intros t v Hs Hw Hv Hm Hb Hp Hd. exists (print_compact (expected t v)). split.
+  intros t v Hs Hw Hv Hm Hp Hd. exists (print_compact (expected t v)). split.
   - unfold py_to_json. rewrite py_tree_correct by auto. reflexivity.
   - apply c_text_correct; auto.
 Qed.
 
-(* ---- witnesses of the two findings (the faithful model refutes the Python half) ---- *)
-
+(* the former witness of finding json-bytes (fixed by b3480f8): now all three agree, while
+   to_dict() still holds the bytearray object *)
 Definition bytes_t : nty := NMsg false [(1, ("b", NArr false 1 NByte))].
 Definition bytes_v : val := VM [(1, VL [VZ 7])].
 
-Lemma py_bytearray_refuted :
-  exists t v, shape_ok t = true /\ wf (erase t) = true /\ has_ty (erase t) v = true /\
-              no_proxy_names t = true /\ names_distinct t = true /\ no_byte_array t = false /\
-              py_tree t v = PRaise PyTypeError /\
-              py_asdict t v = POk (PJDict [("b", PJBytes [7])]) /\
-              c_text t (store t v) = Some (print_compact (expected t v)) /\
-              print_compact (expected t v) = "{""b"":[7]}".
-Proof. exists bytes_t, bytes_v. vm_compute. repeat split; reflexivity. Qed.
+Lemma py_bytearray_regression :
+  py_asdict bytes_t bytes_v = POk (PJDict [("b", PJBytes [7])]) /\
+  py_to_json "," ":" bytes_t bytes_v = POk "{""b"":[7]}" /\
+  c_text bytes_t (store bytes_t bytes_v) = Some "{""b"":[7]}" /\
+  print_compact (expected bytes_t bytes_v) = "{""b"":[7]}".
+Proof. vm_compute. repeat split; reflexivity. Qed.
+
+(* ---- witness of the open finding (the faithful model refutes the Python half) ---- *)
 
 Definition proxy_t : nty := NMsg false [(1, ("_enum_field_proxy__x", NBool))].
 Definition proxy_v : val := VM [(1, VB true)].
 
 Lemma py_proxy_name_refuted :
   exists t v, shape_ok t = true /\ wf (erase t) = true /\ has_ty (erase t) v = true /\
-              no_byte_array t = true /\ names_distinct t = true /\ no_proxy_names t = false /\
+              names_distinct t = true /\ no_proxy_names t = false /\
               py_tree t v = POk (JObj []) /\
               expected t v = JObj [("_enum_field_proxy__x", JBool true)] /\
               c_text t (store t v) = Some (print_compact (expected t v)).
